@@ -53,9 +53,9 @@ CURVE_BITS = {"ecdsa256": 256, "ecdsa384": 384, "ecdsa521": 521}
 # derive_private_key; KeyPool re-derives and re-checks them.  Random keys practically never have >= 2
 # (probability 2^-15 for P-256/384, 2^-8 for P-521).
 SHORT_SCALARS = {
-    "ecdsa256": [(379, "x", 1), (43, "y", 1), (40393, "x", 2), (2376, "y", 2)],
+    "ecdsa256": [(379, "x", 1), (43, "y", 1), (40393, "x", 2), (2376, "y", 2), (1476301, "x", 3), (7280631, "y", 3)],
     "ecdsa384": [(197, "x", 1), (176, "y", 1), (14971, "x", 2), (93150, "y", 2)],
-    "ecdsa521": [(1, "x", 1), (2, "y", 1), (273, "x", 2), (73, "y", 2), (10735, "x", 3)],
+    "ecdsa521": [(1, "x", 1), (2, "y", 1), (273, "x", 2), (73, "y", 2), (10735, "x", 3), (63506, "y", 3)],
 }
 
 
